@@ -267,17 +267,12 @@ fn boxes_k<K: Kind>(c: &BoxCase, ctx: &mut Ctx) -> Result<(), Fail> {
     };
     ensure!(d.recs.len() == views_.len(), "count", "{} records for {} shapes", d.recs.len(), views_.len());
     // one case in six: the header the path-based writer leaves on disk
-    if (c.plants.len() + views_.len()) % 6 == 0 && c.file.fin != Finish::WriteShapes {
+    if (c.plants.len() + views_.len()) % 6 == 0 {
         ctx.class("from_path-route");
         let p = scratch_dir().join("c05.shp");
         {
-            let mut w = shapefile::ShapeWriter::from_path(&p).map_err(|e| Fail::new("write-error", err_str(&e)))?;
-            for (i, s) in shapes.iter().enumerate() {
-                w.write_shape(s).map_err(|e| Fail::new("write-error", err_str(&e)))?;
-                if c.file.mid_fins & (1 << (i % 32)) != 0 {
-                    w.finalize().map_err(|e| Fail::new("write-error", err_str(&e)))?;
-                }
-            }
+            let w = shapefile::ShapeWriter::from_path(&p).map_err(|e| Fail::new("write-error", err_str(&e)))?;
+            drive_writer(w, &shapes, c.file.fin, c.file.mid_fins).map_err(|e| Fail::new("write-error", e))?;
         }
         let disk = std::fs::read(&p).map_err(|e| Fail::new("disk-io", e.to_string()))?;
         let dd = refcodec::decode(&disk, Mode::Strict).map_err(|e| Fail::new("malformed", format!("from_path: {}", e)))?;
